@@ -30,6 +30,7 @@ import Sds.Proofs.RawVec
 import Sds.Proofs.Glue
 import Sds.Proofs.GenEqIdx
 import Sds.Proofs.GenEqBv
+import Sds.Proofs.GenEqLoop2
 
 namespace Sds.C01
 open Sds Outcome IterProofs
@@ -387,5 +388,16 @@ theorem bit_vector_queries_as_translated_from_source (m : Mode) (b : BitVector) 
 (finding F2: the unclamped `value + 1` panicked here) -/
 example : Generated.gen_BitVector_predecessor .checked (BitVector.ofRaw (RawVec.ofBits [true, false, true])).enableAll (U64 - 1)
     = ok ⟨(1, 2), (2, 3)⟩ := by decide +kernel
+
+/-! **`SelectSupport::select_unchecked` as translated from the source on this run — loop included**
+(`Generated/FnsLoop.lean`).  The translator turns the `loop { … break }` of the word scan into `loopM` over the variables
+the body assigns (`relative_rank, result, value, word`), with the iteration bound the model uses (one more than the number
+of words).  For every rank and every vector of fewer than 2^64 words the code as it is NOW — sample lookup, long / short
+decision on the low bit of the pointer, block sample, masked first word, scan, in-word select — is `SelSup.selectU`, the
+function `select_exact` and the no-out-of-bounds theorems of C08 are about. -/
+theorem select_unchecked_as_translated_from_source (m : Mode) (tr : Tr) (s : SelSup) (v : RawVec) (rank : Nat)
+    (hr : rank < U64) (hv : v.data.size < U64) :
+    Generated.gen_SelectSupport_select_unchecked m tr s v rank = s.selectU tr m v rank :=
+  GenEq.select_unchecked_eq m tr s v rank hr hv
 
 end Sds.C01
